@@ -138,6 +138,34 @@ CHECKS["C20"] = {
     ],
 }
 
+CHECKS["C15"] = {
+    "pkg": "./checks/c15",
+    "level": "exploration",
+    "rule": "frames: a real server-side p2p.Peer on an in-memory connection; the remote writes a generated byte stream in generated splits, either from the first byte (before the transport handshake: random bytes, "
+            "frames with hostile magic / claimed lengths {0,1,15..17,64 KiB+-1,25 MiB+-1,512 MiB,1 GiB+-1,2^31+-1,2^32-1}, ECIES-encrypted plaintexts shaped like the authentication request with fields of any size) "
+            "or after a real handshake (ciphertext of any length incl. non-multiples of the block size, block-sized garbage, correctly encrypted plaintexts shorter than a message code, any code 0..2^32-1 with any payload, truncated bodies). "
+            "Oracles: the process survives (every case is journaled before delivery, so a dying process is attributed to its input), peak live heap while the remote holds the connection <= 64 MiB + 64 x bytes sent "
+            "(64 MiB = twice the code's own 25 MiB frame cap plus runtime slack), Peer.Run returns within 30 s after the remote hangs up. non-trivial = the input passed the magic/length gate (a message was delivered, or the handshake failed behind the gate). "
+            "messages: 1..5 (+ scripted) protocol messages to the REAL ProtocolManager of a real node (chain of 1..3 blocks, 2..3 deputies) over scripted transports, each built from a valid payload of its type "
+            "(status, block hash, block requests, confirm, confirms with up to 10000 signatures, discover request/response with hostile node strings, protocol handshake, transaction batches, blocks) and damaged by structure-aware "
+            "mutation of its RLP tree (node -> empty string / empty list / hostile scalar, delete, duplicate x{1..10000}, wrap, flip, copy, lengthen, shorten), truncation, trailing bytes or replaced by random bytes; "
+            "transactions of all 11 types with hostile JSON documents (null / wrong-typed / huge members, deleted members), type confusion, extreme amounts and gas, no / junk / 300 signatures, hostile boxes; "
+            "blocks: the valid next block damaged and re-signed by the deputy in turn, consistent blocks the miner path assembles from hostile transactions, orphans at extreme heights, and an equivocation script "
+            "(two blocks of one deputy for one height, his orphans parked before and delivered again after). Also delivered as the answer to the protocol handshake. Codes outside the protocol (0, 1, 0x0f..0x1f, 0x20, 2^32-1) included. "
+            "Oracles: process survives; peak live heap <= 64 MiB + 64 x payload bytes; afterwards a fresh peer is registered, a status request is answered within 30 s and (when the head did not move) the valid next block is inserted within 30 s. "
+            "non-trivial = at least one message that is neither truncated nor random (it decodes at least partly); distinct by description digest.",
+    "level_text": "Generated hostile inputs (byte streams, frames, structure-aware mutated protocol messages, absurd blocks / confirms / transactions) against the real transport and protocol manager, with survival, live-heap and liveness oracles; "
+                  "exploration bounded by message count and mutation depth. Thorough tier adds coverage-guided native fuzzing of the frame reader.",
+    "level_note": "Deadlock is decided by generous bounds (30 s on an otherwise idle node). Block requests spanning more than 200000 heights are excluded and counted: respBlocks then loops for minutes per request, "
+                  "which costs CPU, not memory, and is outside the statement as written. Memory is measured as live heap (HeapAlloc peak), not cumulative allocation. Transaction batches use wall-clock expiries, so a journaled batch replays faithfully only for about 10 minutes.",
+    "technique": "rapid generators with structure-aware mutation + process-survival / heap / liveness oracles (+ native go fuzzing in the thorough tier)",
+    "assumptions": ["the remote can complete the transport handshake (any key is accepted)", "the node under test is not a deputy"],
+    "units": [
+        {"name": "frames", "test": "TestC15Frames", "quick": {"checks": 250, "shards": 4, "timeout": 900}, "thorough": {"checks": 6000, "shards": 8, "timeout": 3400}},
+        {"name": "messages", "test": "TestC15Messages", "quick": {"checks": 150, "shards": 8, "timeout": 900}, "thorough": {"checks": 4000, "shards": 16, "timeout": 3400}},
+    ],
+}
+
 CHECKS["C07"] = {
     "pkg": "./checks/c07",
     "level": "exploration",
